@@ -168,6 +168,7 @@ _ADDED2 = {
     "C15": " Cancel may be called twice in a row or from two goroutines; an execution that stops making progress is a violation.",
     "C16": " The hedged-retry test also requires one policy OnFailure event per result the handle predicate called a failure, with a slow abort predicate between the policy's steps; a Timeout's listener is checked when the caller cancelled first; a limiter wait cancelled after an earlier real refusal must stay silent.",
     "C17": " Further tests: IsHedge across retries inside a hedged branch; flags and counters in the listeners of policies inside a hedge.",
+    "C19": " A further test decides 'responses the adapter does not return are closed' directly, with an inner RoundTripper whose response bodies record Close.",
     "C18": " Further: attempts whose request must be abandoned when a Timeout fires or the hedge policy drops the loser, for every kind of caller context.",
 }
 _ADDED = {k: _ADDED.get(k, "") + _ADDED2.get(k, "") for k in set(_ADDED) | set(_ADDED2)}
